@@ -93,6 +93,7 @@ def extra_checks(ctx):
     e = B.env()
     rng = random.Random(f'C18-oracle/{ctx.seed}/{ctx.shard}')
     fails = []
+    export_texts = []
     for i in range(60 if ctx.quick else 600):
         n = rng.choice([1, 2, 3, 5])
         rops = [B.gen_result_op(rng, long_ok=False) for _ in range(n)]
@@ -112,6 +113,7 @@ def extra_checks(ctx):
             fail('line-longer-than-255', max(len(c) for c in chunks))
         text = ''.join(chunks)
         import io
+        export_texts.append(text)
         games = e['PbnParser']().parse_all(io.StringIO(text))
         if len(games) != len(results):
             fail('games-not-separated', {'games': len(games), 'results': len(results)})
@@ -137,6 +139,13 @@ def extra_checks(ctx):
             ok = False
         if not ok:
             fail('export-as-settings', 'parse_board_settings(written) differs from the boards written')
+    # the TRANSLATED PBN parser (Generated/PyCorePbn.lean) reads the export texts as the real parser does
+    import common
+    import pbn_translated as PT
+    tdiffs, nrun = PT.check(common.REPO, common.ModelDriver(), export_texts[:40 if ctx.quick else 300])
+    ctx.count('translated_pbn_parser_runs', nrun)
+    for d in tdiffs[:4]:
+        fails.append({'key': 'translated-pbn-parser', 'kind': 'broken-correspondence', 'ops': [], 'diff': d})
     return fails
 
 
